@@ -76,12 +76,13 @@ func (eng) Rule(mode string) string {
 // ---------- JSON forms ----------
 
 type opJ struct {
-	Op     string  `json:"op"`             // set | adv | restore
-	Key    []byte  `json:"key,omitempty"`  // set
-	T      int64   `json:"t,omitempty"`    // set: UnixNano; adv: watermark UnixNano
-	More   []int64 `json:"more,omitempty"` // set: further timestamps registered for the same key by the same handler result
-	Sr     int     `json:"sr,omitempty"`   // adv: sender number
-	How    string  `json:"how,omitempty"`  // restore: same | ckpt
+	Op     string  `json:"op"`              // set | adv | restore
+	Key    []byte  `json:"key,omitempty"`   // set
+	T      int64   `json:"t,omitempty"`     // set: UnixNano; adv: watermark UnixNano
+	More   []int64 `json:"more,omitempty"`  // set: further timestamps registered for the same key by the same handler result
+	Sr     int     `json:"sr,omitempty"`    // adv: sender number
+	How    string  `json:"how,omitempty"`   // restore: same | ckpt
+	Batch  int     `json:"batch,omitempty"` // crash (c10op with checkpoints): event batch size of the new incarnation
 	During []durJ  `json:"during,omitempty"`
 }
 type durJ struct {
@@ -385,7 +386,7 @@ type firedJ struct {
 
 func coqFired(f firedJ) string { return hx.CoqPair(hx.CoqBytes(f.K), hx.CoqZ(f.T)) }
 
-var debug = os.Getenv("TIMERS_DEBUG") != ""
+var debugDump = os.Getenv("TIMERS_DEBUG") != ""
 
 var hasTables = regexp.MustCompile(`, tables [1-9]`)
 
@@ -555,7 +556,7 @@ func (eng) execute(mode string, c *hx.Case) (*hx.Result, error) {
 		if err := db.WaitOnTasks(); err != nil {
 			return nil, fmt.Errorf("op %d: WaitOnTasks: %v", i, err)
 		}
-		if debug {
+		if debugDump {
 			var err error
 			var ks []string
 			for e := range db.ScanPrefix(nil, &err) {
